@@ -5,6 +5,7 @@ package main
 // RHP/Form.v (hcall), and the raw facts the monitors need.
 
 import (
+	"errors"
 	"fmt"
 	"os"
 	"sync"
@@ -161,6 +162,24 @@ func (c *recChain) AddV2PoolTransactions(basis types.ChainIndex, txns []types.V2
 type recContractor struct {
 	rhp4.Contractor
 	log *callLog
+	// failElement makes V2FileContractElement fail (fault plan: the contract store
+	// cannot produce the state element)
+	failElement bool
+}
+
+func (c *recContractor) V2FileContractElement(id types.FileContractID) (types.ChainIndex, types.V2FileContractElement, error) {
+	var basis types.ChainIndex
+	var fce types.V2FileContractElement
+	var err error
+	if c.failElement {
+		err = errors.New("contract store unavailable (fault plan)")
+	} else {
+		basis, fce, err = c.Contractor.V2FileContractElement(id)
+	}
+	c.log.mu.Lock()
+	c.log.add("CElement " + coqBool(err == nil))
+	c.log.mu.Unlock()
+	return basis, fce, err
 }
 
 func (c *recContractor) LockV2Contract(id types.FileContractID) (rhp4.RevisionState, func(), error) {
